@@ -467,8 +467,9 @@ func buildKern(subs []kernSub) []byte {
 // kern chapter defines it: horizontal kerning subtables accumulate, a
 // minimum subtable limits the accumulated value from below, an override
 // subtable replaces it.
-func refKern(subs []kernSub, a, b uint16) int {
+func refKern(subs []kernSub, a, b uint16) (result int, representable bool) {
 	val, have := 0, false
+	representable = true
 	for _, s := range subs {
 		if s.flags&0x01 == 0 || s.flags&0x04 != 0 {
 			continue // vertical or cross-stream: not horizontal kerning
@@ -487,10 +488,15 @@ func refKern(subs []kernSub, a, b uint16) int {
 		default:
 			val += int(v)
 		}
+		if val < -32768 || val > 32767 {
+			// the accumulated kerning leaves the 16-bit range of the design
+			// unit types: no implementation with FWORD values can hold it
+			representable = false
+		}
 		have = true
 	}
 	_ = have
-	return val
+	return val, representable
 }
 
 func TestC15Kern(t *testing.T) {
@@ -559,7 +565,11 @@ func TestC15Kern(t *testing.T) {
 				if len(out) != 2 || int(out[0].GID) != a || int(out[1].GID) != b {
 					t.Fatalf("Layout of glyph pair (%d,%d) gives %s\n%s", a, b, infoStr(out), ctx())
 				}
-				want := refKern(subs, uint16(a), uint16(b))
+				want, representable := refKern(subs, uint16(a), uint16(b))
+				if !representable {
+					stats.Label("kern", "pair-sum-beyond-16-bit")
+					continue
+				}
 				got := int(out[0].Advance) - int(funit.Int16(g.GlyphWidth(glyph.ID(a))))
 				wa := int(funit.Int16(g.GlyphWidth(glyph.ID(a))))
 				if wa+want > 32767 || wa+want < -32768 {
